@@ -33,8 +33,10 @@ from harness.common import HarnessError
 from harness.gen import a14_lib as L
 
 DRIVERS = ["drv_c27"]
-RULE = ("one case = one generated library (1-2 top-level packages, nesting depth <= 3, 2-12 classes, package constants with "
-        "shadowing, extends / components / constants referenced by relative and absolute names) with one split into 2-4 files "
+RULE = ("one case = one generated library (1-2 top-level packages, nesting depth <= 3, 2-20 classes, package constants with "
+        "shadowing, extends / components / constants referenced by relative and absolute names, in 40 % of the libraries the "
+        "same sub-package and class names repeated below different packages; files on disk named distinctly or all "
+        "`package.mo` in nested directories) with one split into 2-4 files "
         "and ALL permutations of the files (plus the three directory walks on two of them); non-trivial = at least one file has a "
         "`within` clause and at least one class uses something defined in another file; distinct = distinct file texts")
 TRUSTED = ["the digest of a class's own content (ast.Node.to_json of the class without `classes`) identifies its payload",
@@ -363,9 +365,12 @@ def check_library(ctx, case, drv, walks=True):
             shutil.rmtree(root, ignore_errors=True)
             d = root
             rels = []
+            naming = case.get("file_names", "distinct")
             for k, i in enumerate(order):       # one file per nesting level: the walk order is the list order
                 os.makedirs(d, exist_ok=True)
-                p = os.path.join(d, "f%d.mo" % i)
+                # standard Modelica layout: every directory has its own package.mo
+                fname = "package.mo" if naming == "package.mo" or (naming == "mixed" and i % 2 == 0) else "f%d.mo" % i
+                p = os.path.join(d, fname)
                 with open(p, "w") as fh:
                     fh.write(files[i]["text"])
                 rels.append(p)
@@ -482,10 +487,11 @@ def casadi_model(root, name):
 # ------------------------------------------------------------------------------------------
 def make_case(rng, stream):
     for _ in range(50):
+        rep = rng.random() < 0.4
         if stream == "payload":
-            tops = L.gen_library(rng, const_min_depth=0)
+            tops = L.gen_library(rng, const_min_depth=0, repeated_names=rep)
         else:
-            tops = L.gen_library(rng, const_min_depth=rng.choice([1, 1, 2]))
+            tops = L.gen_library(rng, const_min_depth=rng.choice([1, 1, 2]), repeated_names=rep)
         nfiles = rng.choice([2, 2, 3, 3, 4])
         files = L.split(rng, tops, nfiles, stream == "payload")
         if files is None:
@@ -495,7 +501,8 @@ def make_case(rng, stream):
         models = [".".join(n["path"]) for n in nodes if n["kind"] == "model"]
         return {"files": [{"within": f["within"], "text": f["text"]} for f in files], "unsplit": L.unsplit_text(tops),
                 "classes": classes, "casadi_class": rng.choice(models) if models else None, "stream": stream,
-                "walk_seed": rng.getrandbits(16)}
+                "walk_seed": rng.getrandbits(16), "file_names": rng.choice(["distinct", "package.mo", "package.mo", "mixed"]),
+                "repeated_names": rep}
     return None
 
 
@@ -508,7 +515,7 @@ def run(ctx):
         ctx.count("corpus")
         ctx.case({"files": [f["text"] for f in c["files"]]}, nontrivial=True)
         check_library(ctx, c, drv)
-    n = 45 if quick else 1500
+    n = 38 if quick else 1500
     for i in range(n):
         if ctx.time_left() < 0:
             ctx.notes.append("stopped by time budget after %d libraries" % i)
@@ -520,6 +527,8 @@ def run(ctx):
             continue
         ctx.count("stream:" + stream)
         ctx.count("files:%d" % len(case["files"]))
+        ctx.count("file-names:" + case["file_names"])
+        ctx.count("repeated-name-pairs" if case["repeated_names"] else "unique-names")
         ctx.count("classes:%02d" % (4 * (len(case["classes"]) // 4)))
         nontriv = any(f["within"] for f in case["files"])
         ctx.case({"files": [f["text"] for f in case["files"]]}, nontrivial=nontriv)
